@@ -25,17 +25,24 @@ def other_data(entry, rng):
     return entry.data(rng)
 
 
-def reconfigure(hist, a, entry, rng):
-    """between two fits the user changes some (plain) parameters: what the first fit learned under the old values must not
-    survive the second fit"""
-    plain = [(k, alts) for k, alts in entry.sets if not hasattr(alts[0](), "get_params") and not isinstance(alts[0](), list)]
-    rng.shuffle(plain)
-    for key, alts in plain[:2]:
-        if key in lifecycle.view_of(a):
-            hist.set(a, {key: alts[-1]()})
+def plain_sets(entry):
+    return [(k, j) for k, alts in entry.sets for j in range(len(alts))
+            if not hasattr(alts[0](), "get_params")
+            and not (isinstance(alts[0](), list) and alts[0]() and hasattr(alts[0]()[0], "get_params"))]
 
 
-def scenario(hist, entry, rng, variant=0):
+def reconfigure(hist, a, entry, rng, which=None):
+    """between two fits the user changes a (plain) parameter: what the first fit learned under the old value must not
+    survive the second fit.  `which` = (key, index of the alternative)"""
+    if which is None:
+        return
+    key, j = which
+    alts = dict(entry.sets)[key]
+    if key in lifecycle.view_of(a):
+        hist.set(a, {key: alts[j]()})
+
+
+def scenario(hist, entry, rng, variant=0, which=None):
     a = entry.make(variant)
     hist.new(a)
     XA, yA = entry.data(rng)
@@ -45,8 +52,7 @@ def scenario(hist, entry, rng, variant=0):
     okA, _ = lifecycle.do_fit(hist, a, XA, yA, entry, seedA, "A")
     if okA:
         lifecycle.observe_all(hist, a, entry, XA, "SeedDeterminism", note="first fit")
-    if rng.random() < 0.6:
-        reconfigure(hist, a, entry, rng)
+    reconfigure(hist, a, entry, rng, which)
     okB, _ = lifecycle.do_fit(hist, a, XB, yB, entry, seedB, "B")
     base = {k for k in vars(entry.make(0)) if k.endswith("_")}
     c = hist.clone(a, base)
@@ -80,13 +86,17 @@ def run(ctx):
         if entry.name == "TransferTransformer":
             ctx.skipped.append("TransferTransformer: a clone wraps an unfitted estimator; its refit behaviour is decided by C15")
             continue
-        for rep in range(4 if thorough else 2):
+        # one history without reconfiguration per variant, then one per (plain key, alternative) set between the two fits
+        plans = [(0, None), (1, None)] + [(j % 2, w) for j, w in enumerate(plain_sets(entry))]
+        if thorough:
+            plans = plans + [(1 - v_, w) for v_, w in plans[2:]]
+        for rep, (variant, which) in enumerate(plans):
             tid += 1
-            hist = lifecycle.History(tid, "C03 " + entry.name, "A then B vs fresh clone on B")
+            hist = lifecycle.History(tid, "C03 " + entry.name, "A then B vs fresh clone on B" + (" after set_params(%s)" % which[0] if which else ""))
             if entry.rowwise and entry.methods:
-                scenario(hist, entry, rng, rep % 2)
+                scenario(hist, entry, rng, variant, which)
             else:
-                scenario_attrs_only(hist, entry, rng, rep % 2)
+                scenario_attrs_only(hist, entry, rng, variant, which)
             ctx.case((entry.name, rep), sample=dict(kind="history", cls=entry.name,
                                                     events=[(e["a"], e.get("kind", e.get("method", "")), e.get("data", "")) for e in hist.t["ev"][:9]]))
             traces.append(hist.t)
@@ -100,7 +110,7 @@ def run(ctx):
     ctx.assumptions += ["seed kind per class (global NumPy seed / integer random_state / none) is the table in harness/classes.py"]
 
 
-def scenario_attrs_only(hist, entry, rng, variant=0):
+def scenario_attrs_only(hist, entry, rng, variant=0, which=None):
     """transformers of targets / vectorizers: compare fitted attributes (permutations, vocabularies, categories)"""
     a = entry.make(variant)
     hist.new(a)
@@ -108,8 +118,7 @@ def scenario_attrs_only(hist, entry, rng, variant=0):
     XB, yB = entry.data(rng)
     s = rng.randint(0, 999)
     lifecycle.do_fit(hist, a, XA, yA, entry, s, "A")
-    if rng.random() < 0.5:
-        reconfigure(hist, a, entry, rng)
+    reconfigure(hist, a, entry, rng, which)
     okB, _ = lifecycle.do_fit(hist, a, XB, yB, entry, s, "B")
     c = hist.clone(a, {k for k in vars(entry.make(0)) if k.endswith("_")})
     if c is None or not okB:
